@@ -114,3 +114,23 @@ func splitAtRecord(e *core.Env, r *core.Rand, d *gen.Out, base string) (paths []
 	}
 	return []string{writeFile(e.Dir, base+"-part1.klg", d.Text[:off]), writeFile(e.Dir, base+"-part2.klg", d.Text[off:])}, true
 }
+
+// stdinJSON pipes the text into the real binary (`klog json` reading its standard input): the whole program from the
+// pipe to the parser, including the code that collects the input. ok=false: the observation could not be made.
+func stdinJSON(e *core.Env, text string) (records []any, nerr int, recordsNull bool, crash string, ok bool) {
+	if e.KlogBin == "" {
+		return nil, 0, false, "", false
+	}
+	b := obs.RunBin(obs.BinEnv{Bin: e.KlogBin, ConfigDir: e.Dir + "/bincfg", Stdin: []byte(text)}, "json")
+	if b.Err != nil {
+		return nil, 0, false, "", false
+	}
+	if obs.LooksLikeGoCrash(b.Stdout + b.Stderr) {
+		return nil, 0, false, trunc(b.Stderr+b.Stdout, 600), true
+	}
+	recs, errsArr, rnull, _, jerr := decodeJSONEnvelope(b.Stdout)
+	if jerr != nil {
+		return nil, 0, false, "undecodable output: " + trunc(b.Stdout, 300), true
+	}
+	return recs, len(errsArr), rnull, "", true
+}
